@@ -370,8 +370,10 @@ def copyTrunc (lim : Nat) (name : Name) : Name := name.take lim ++ [0]
 def nameStored : NameApi → Name → Option Name
   | .vsname, n | .vsclass, n => some (n.take VSNAMELENMAX)          -- VSsetname / VSsetclass: fixed char[65], truncate
   | .field, n => some (n.take FIELDNAMELENMAX)                       -- scanattrs: truncate to FIELDNAMELENMAX
-  | .vgname, n | .vgclass, n | .grname, n =>                         -- Vsetname / Vsetclass / GRcreate: malloc(strlen + 1),
+  | .vgname, n | .vgclass, n =>                                      -- Vsetname / Vsetclass: malloc(strlen + 1),
     if n.length > H4.Gen.Limits.UINT16_MAX then none else some n     --   refused beyond the 16-bit length field of the record
+  | .grname, n =>                                                    -- GRcreate: GRgetiminfo copies the name into the caller's
+    if n.length ≥ H4.Gen.Limits.H4_MAX_GR_NAME then none else some n --   char[H4_MAX_GR_NAME]: a name that does not fit there is refused
   | .sdname, n | .dimname, n =>                                      -- NC_new_string: count > H4_MAX_NC_NAME refused
     if n.length > H4_MAX_NC_NAME then none else some n
   | .attrname, n =>                                                  -- SDsetattr: the attribute becomes a vdata NAMED by VSsetname;
